@@ -374,6 +374,39 @@ def run_selection(col, cell_type, elname, nnodes):
         vv = P(vol).const_value()
         okf = abs(fl - dim * vv) < Fraction(1, 10 ** 40)
         return not bad and okf and vv > 0, "sum dA = %s; flux %s vs dim*volume %s" % ([float(P(t).const_value()) for t in tot], float(fl), float(dim * vv))
+    def chk_recompute():
+        # the face data of a surface region are derived data like dhdX / dV of a volume region: every way of re-evaluating the region
+        # (reload(), copy(), astype()) leaves a region whose dA, dV (= |dA|), normals and tangents are those of a freshly built region
+        reg = it.call(it.get("felupe.region._templates:" + TEMPLATE), [mesh.copy()], dict(only_surface=True))
+        names = ("dA", "dV", "normals")
+
+        def snap(r):
+            out = {nm: npmodel.to_obj(np.asarray(it.getattr(r, nm))).copy() for nm in names}
+            out["tangents"] = [npmodel.to_obj(np.asarray(t)).copy() for t in it.getattr(r, "tangents")]
+            return out
+
+        def same(a, b):
+            return a.shape == b.shape and all(abs(ring.const_decimal(P(x) - P(y))) < ring._SEP for x, y in zip(a.reshape(-1), b.reshape(-1)))
+
+        ref = snap(reg)
+        bad = []
+        for how in ("copy()", "astype(float64)", "reload()"):
+            if how == "copy()":
+                r2 = it.call_method(reg, "copy", [], {})
+            elif how == "astype(float64)":
+                r2 = it.call_method(reg, "astype", [it.getattr(it.externals["numpy"], "float64")], {})
+            else:
+                it.call_method(reg, "reload", [], {})
+                r2 = reg
+            got = snap(r2)
+            for nm in names:
+                if not same(got[nm], ref[nm]):
+                    bad.append("%s: %s" % (how, nm))
+            if len(got["tangents"]) != len(ref["tangents"]) or any(not same(a, b) for a, b in zip(got["tangents"], ref["tangents"])):
+                bad.append("%s: tangents" % how)
+        return not bad, "region/_boundary.py RegionBoundary (inherits Region.reload / copy / astype): differs from the freshly built region in %s" % bad
+    col.check("C13.O6", "%s surface region re-evaluated (%s)" % (cell_type, TEMPLATE),
+              "after copy(), astype() or reload() the area vectors, their norms dV, the unit normals and the tangents are those of a freshly built surface region of the same mesh", chk_recompute)
     col.check("C13.O5", "%s closure on a distorted two-cell mesh (%s, default rule)" % (cell_type, TEMPLATE),
               "area vectors sum to zero and the flux of the position vector equals dim * volume (exact rational coordinates; Gauss points to 70 digits)", chk_closure)
     finish_info(col, it)
